@@ -91,13 +91,14 @@ def judge_worst(ctx, p, design, tols, m, fn, tag, batch_no):
         return False
     # objective calls: once for x, once per neighbour (call log is global: count by vector)
     cnt = collections.Counter(key_of(c.vector) for c in p.calls)
-    if cnt[key_of(x)] != 1 + exp_children.get(key_of(x), 0):
+    mult = design.get("mult", 1)       # how many designs of the history share this vector (replicated points)
+    if cnt[key_of(x)] != mult * (1 + exp_children.get(key_of(x), 0)):
         ctx.violation("worst/calls_design" + late, "design evaluated %d times" % cnt[key_of(x)], wit())
         return False
     for cv, k in exp_children.items():
         if cv == key_of(x):
             continue
-        if cnt[cv] != k:
+        if cnt[cv] != mult * k:
             ctx.violation("worst/calls_neighbour" + late, "a neighbour design was evaluated %d times, expected %d" % (cnt[cv], k), wit({"neighbour": cv}))
             return False
     return True
@@ -125,10 +126,10 @@ def judge_gradient(ctx, p, design, m, fn, tag, batch_no):
         if not oracles.close(float(g[i]), exp, 1e-9, 1e-9):
             ctx.violation("gradient/value" + late, "gradient[%d]=%r, forward difference (step 1e-4) of the first objective is %r" % (i, float(g[i]), exp), wit())
             return False
-        if cnt[key_of(v)] != 1:
-            ctx.violation("gradient/calls_neighbour" + late, "x + 1e-4 e_%d evaluated %d times, expected once" % (i, cnt[key_of(v)]), wit())
+        if cnt[key_of(v)] != design.get("mult", 1):
+            ctx.violation("gradient/calls_neighbour" + late, "x + 1e-4 e_%d evaluated %d times, expected once per design" % (i, cnt[key_of(v)]), wit())
             return False
-    if cnt[key_of(x)] != 1:
+    if cnt[key_of(x)] != design.get("mult", 1):
         ctx.violation("gradient/calls_design" + late, "design evaluated %d times" % cnt[key_of(x)], wit())
         return False
     if len(ind.costs) != m or list(map(float, ind.costs)) != [float(v) for v in fn(x)]:
@@ -171,7 +172,11 @@ def run_case(ctx, name, params):
             size = r.randint(1, 8)
             batch = []
             for _ in range(size):
-                ind = Individual([lb + r.random() * (ub - lb) for lb, ub in bxs])
+                if batch and not inject and r.random() < 0.12:
+                    ind = Individual(list(r.choice(batch).vector))       # a replicated point: another design at the same vector
+                    ctx.count("replicated_designs_in_a_batch")
+                else:
+                    ind = Individual([lb + r.random() * (ub - lb) for lb, ub in bxs])
                 batch.append(ind)
                 parents.add(ind.id)
                 designs.append({"ind": ind, "vector": [float(v) for v in ind.vector], "batch": b})
@@ -182,6 +187,8 @@ def run_case(ctx, name, params):
                 return
             for dsg in designs[-size:]:
                 dsg["vector"] = [float(v) for v in dsg["ind"].vector]       # the vector that was finally stored (after retries)
+            for dsg in designs:
+                dsg["mult"] = sum(1 for o in designs if o["vector"] == dsg["vector"])
             total_expected += size * ((1 + 2 * n) if worst else (1 + n)) + sum(failed_once.get(i.id, 0) for i in batch)
             ctx.count("injected_parent_failures", sum(failed_once.get(i.id, 0) for i in batch))
             ctx.count("batches")
